@@ -14,27 +14,39 @@ package martianhttp
 // C12: a configuration is parsed and validated first; only then are the request modifier, the response modifier and
 // the stored configuration replaced together under the write lock. On every error path nothing is replaced.
 //@ ghost var lastStatus int
+//@ ghost var nErrReply int
 //@ extern func http.Error
-//@   modifies lastStatus
-//@   ensures lastStatus == arg2
+//@   modifies lastStatus, nErrReply
+//@   ensures lastStatus == arg2 && nErrReply == old(nErrReply) + 1
 //@ extern func parse.FromJSON
 //@   ensures (result1 == nil) == (result0 != nil)
+// nSetReq / nSetRes count installations: an accepted configuration replaces BOTH sides, also when the new tree has
+// nothing for one of them (that side becomes the no-op modifier; the old tree must not stay in force).
+//@ ghost var nSetReq int
+//@ ghost var nSetRes int
 //@ func (*Modifier).setRequestModifier
 //@   serves C12
 //@   requires m != nil && m.mu.wheld
-//@   modifies m.reqmod
+//@   modifies m.reqmod, nSetReq
 //@   ensures[nil-becomes-noop] m.reqmod != nil && (reqmod != nil ==> m.reqmod == reqmod)
+//@   ensures[installs-the-given-modifier-or-noop] m.reqmod == ite(reqmod == nil, noop, reqmod) && nSetReq == old(nSetReq) + 1
+//@   at entry 0 before set nSetReq = nSetReq + 1
 //@ func (*Modifier).setResponseModifier
 //@   serves C12
 //@   requires m != nil && m.mu.wheld
-//@   modifies m.resmod
+//@   modifies m.resmod, nSetRes
 //@   ensures[nil-becomes-noop] m.resmod != nil && (resmod != nil ==> m.resmod == resmod)
+//@   ensures[installs-the-given-modifier-or-noop] m.resmod == ite(resmod == nil, noop, resmod) && nSetRes == old(nSetRes) + 1
+//@   at entry 0 before set nSetRes = nSetRes + 1
 //@ func (*Modifier).servePOST
 //@   serves C12
 //@   requires modIdle(m) && req != nil && req.Body != nil
-//@   modifies m.reqmod, m.resmod, m.config, m.mu.wheld, lastStatus
+//@   modifies m.reqmod, m.resmod, m.config, m.mu.wheld, lastStatus, nErrReply, nSetReq, nSetRes
 //@   noframe
 //@   ensures[lock-released] modIdle(m)
+//@   ensures[accepted-configuration-replaces-both-sides] nErrReply == old(nErrReply) ==> nSetReq == old(nSetReq) + 1 && nSetRes == old(nSetRes) + 1
+//@   at call 0 of setRequestModifier before assert[request-side-of-the-parsed-tree] arg0 == r.reqmod
+//@   at call 0 of setResponseModifier before assert[response-side-of-the-parsed-tree] arg0 == r.resmod
 //@   ensures[rejected-configuration-changes-nothing] lastStatus != old(lastStatus) || (lastStatus >= 400) ==>
 //@        lastStatus == old(lastStatus) || (m.reqmod == old(m.reqmod) && m.resmod == old(m.resmod) && m.config == old(m.config))
 //@   at call 0 of Error after assert[error-before-any-swap] m.reqmod == old(m.reqmod) && m.resmod == old(m.resmod) && m.config == old(m.config) && arg2 >= 400
